@@ -364,6 +364,15 @@ func (fr *frame) branchNoFork(cond value, want bool) bool {
 // doAssert checks that cond holds on every input of the current path.
 func (fr *frame) doAssert(cond value, label string) {
 	c := fr.i.ctx
+	if cl := classOf(label); cl != "" && len(c.ex.opt.Classes) > 0 {
+		sel := false
+		for _, x := range c.ex.opt.Classes {
+			sel = sel || x == cl
+		}
+		if !sel {
+			return
+		}
+	}
 	var neg string
 	switch x := cond.(type) {
 	case bool:
